@@ -14,16 +14,16 @@ TEXT = {
  "C14": "Coq theorem: for every size, limit L and RIS-free session of feed_str calls from the initial state ending on the primary screen, drained lines ++ final lines() = lines() of the unlimited run (cell for cell, in order); nothing lost at a report (C14_flush)",
  "C15": "Coq theorems: every control function marks every row whose cells it changes (ghost invariant DInv preserved by execute / resize), hence every report returned by feed_str / resize is sound (holds_C15)",
  "C20": "Coq theorem over the regenerated parser tables: every concatenation of OSC/DCS/SOS/PM/APC strings (7/8-bit introducers, ST / ESC \\\\ / BEL), unimplemented CSI / ESC sequences and unassigned C0/C1 controls (grammar inert_spec, outside the known-finding class kf_c20) emits no function from any parser in ground state and ends in ground state; KF-C20-1 proved real (witness CSI > ! p); exhaustive sweep validates the tables",
- "C01": "Coq theorems: the reflow loop and Buffer::resize never panic / always terminate for every buffer, size and cursor (all of nat); PARTIAL for the remaining operations, which are covered by the step-wise correspondence with panic verdicts, a model-free stress run with a watchdog and the executable statement on the implementation",
- "C02": "Coq theorems: every row produced by reflow / Buffer::resize has the new width, the buffer keeps >= rows lines, the last line is unwrapped, the cursor row stays inside; PARTIAL for the remaining operations (executable geometry statement holds_C02 evaluated on every implementation post-state)",
- "C03": "Coq theorems over the Parser::feed table regenerated from the source on every run: table = Williams diagram + 4 deviations for all 14 states x all of N; one parser step = table transition + action and never panics; ESC Fe = C1; memorylessness (psim) over arbitrary input; digit accumulation mod 2^16. Translator validated by an exhaustive sweep of the implementation (14 x 1,112,064 x backgrounds)",
+ "C01": "Coq theorems: for every size >= 1x1, limit and sequence of feed / flush / resize operations the model never reaches a panic site and never exhausts loop fuel (C01_no_panic, by the inductive invariant Inv); dump(), view(), line(n<rows) never panic; parser total. The timing clause is PARTIAL by nature: loop bounds are fuel measures in the model, wall-clock is a watchdog on a model-free stress run of the implementation (overflow checks on)",
+ "C02": "Coq theorems: Inv is inductive for feed / flush / resize and holds initially; the executable geometry statement holds_C02_state follows from Inv for every reachable state; holds_C02_call (changed-line indices strictly increasing < rows, size as requested) for every call",
+ "C03": "Coq theorems over the Parser::feed table AND the dispatch tables regenerated from the source on every run: transition table = Williams diagram + 4 deviations for all 14 states x all of N; CSI / ESC / C0-C1 / mode dispatch = hand-written function table (Spec/Functions.v) for every marker, final byte and parameter array; one parser step = table transition + action, never panics; ESC Fe = C1; memorylessness; digit accumulation mod 2^16. Translator validated by an exhaustive sweep of the implementation; the function table, memorylessness and SGR decoding are also evaluated on the implementation",
  "C04": "Coq theorems: from every state satisfying the invariant, Print and REP yield exactly the specified screen (spec_print / spec_rep: deferred wrap with region scroll, insert mode, last-column rule, charset table), nothing else changes, invariant re-established; the executable statement holds_C04 is a theorem of the model and is evaluated on every implementation step",
  "C05": "Coq theorems: for EVERY cursor command of the property (incl. tab searches) and every state satisfying the invariant the model function equals spec_cursor - only cursor fields change (margins/origin for DECSTBM/DECOM), no cell changes; holds_C05 is a theorem of the model and is evaluated on every implementation step",
  "C06": "Coq theorems: LF/IND/NEL/RI on the margins, SU, SD, IL, DL equal the view-level specification spec_scroll (range shift, blanks in the pen, rows outside unchanged, exactly the pushed rows appended to the scrollback in order) from every state satisfying the invariant; Buffer::scroll_up/down characterised for all three code paths",
  "C07": "Coq theorems: ED/EL/ECH/ICH/DCH/DECALN equal the closed-form specification spec_edit from every state satisfying the invariant; holds_C07 is a theorem of the model and is evaluated on every implementation step",
  "C08": "Coq theorems: SGR decoder = grammar of the property for every parameter array; each op acts on the public pen observations as specified (arbitrary attribute byte); pen = left fold; SGR changes nothing but the pen; no other function changes the pen (holds_C08 for every step); cells carry the pen by C04/C06/C07",
  "C10": "Coq theorems: reflow preserves the list of logical lines exactly; Buffer::resize keeps the cursor in the same logical line and on the same character; the full executable statement resize_preserves / holds_C10 holds for every Resize step from every state satisfying the invariant (all sizes, cursors incl. wrap-pending)",
- "C13": "Coq theorem: the end-of-call trim leaves at most L + L/10 scrollback lines (exactly L after a trim), soft <= hard for every limit; PARTIAL: the whole-run bound holds_C13 is evaluated after every implementation call",
+ "C13": "Coq theorems: the lazy-trim invariant is preserved by every operation and the end-of-call trim establishes the bound: after every feed_str / resize of every session holds_C13 (<= rows + L + L/10 lines, = rows for L = 0 and on the alternate screen)",
  "C17": "Coq theorems: holds_C17 (per-screen saved-context bookkeeping for all save/restore spellings, DECSTR, RIS, every other function) and holds_C17_resize for every step from every state satisfying the invariant",
  "C18": "Coq theorems: default stops, set/unset, n-th next/previous stop, contract/expand (incl. the first new column when a multiple of 8), fresh terminals keep the defaults across any resize; holds_C18 / holds_C18_resize for every step from every state satisfying the invariant",
  "C19": "Coq theorems: ESC c fed to ANY state satisfying the invariant (any parser state, alternate screen, any modes) yields syntactically the state of a fresh Vt of the same size and limit - parser, terminal, buffers, dirty flags - hence identical behaviour on all future input; the regenerated hard_reset list covers every field (incl. cursor-key mode, fix D3)",
